@@ -516,6 +516,25 @@ theorem team_members_reachable {ss : SymSet} {rows : Nat} {t : Team}
     rw [hs.1] at hk
     exact Reachable.crossover (ihl _ (getD_mem_of_lt _ _ _ hk))
       (ihr _ (getD_mem_of_lt _ _ _ (by rw [hlen]; exact hk))) (hs.2 k hk)
+  | incAge _ hs ih =>
+    intro x hx
+    obtain ⟨k, hk, rfl⟩ := exists_getD_of_mem teamMutation.default_ind hx
+    rw [hs.1] at hk
+    exact Reachable.incAge (ih _ (getD_mem_of_lt _ _ _ hk)) (hs.2 k hk)
+
+/-- `team(std::vector<T>)`: a team whose members are (observationally) given reachable individuals
+    is a reachable team. -/
+theorem team_of_members {ss : SymSet} (hc : 0 < ss.cats) {rows : Nat} {pre post : Team}
+    (hp : ∀ x ∈ pre, Reachable ss rows x) (hs : TeamOfMembersStep pre post) :
+    TReachable ss rows post := by
+  refine TReachable.ofMembers ?_
+  intro x hx
+  obtain ⟨k, hk, rfl⟩ := exists_getD_of_mem teamMutation.default_ind hx
+  rw [hs.1] at hk
+  have hr := hp _ (getD_mem_of_lt pre k teamMutation.default_ind hk)
+  have hw := (wf_closed hc hr).1
+  obtain ⟨h1, h2, h3, h4, h5⟩ := hs.2 k hk
+  exact Reachable.getBlock hr hw.best ⟨h1, h2, h3, h4, h5⟩
 
 /-- … hence every reachable team is well-formed. -/
 theorem wf_closed_team {ss : SymSet} (hc : 0 < ss.cats) {rows : Nat} {t : Team}
@@ -597,6 +616,16 @@ theorem teamCrossover_refines {lhs rhs : Team} (d : Nat → XDraw)
   rw [this]
   exact crossover_refines (d k) (hd k hk)
 
+theorem teamIncAge_refines (t : Team) : TeamIncAgeStep t (teamIncAge t) := by
+  refine ⟨by simp [teamIncAge], ?_⟩
+  intro k hk
+  have : (teamIncAge t).getD k teamMutation.default_ind
+      = incAge (t.getD k teamMutation.default_ind) := by
+    simp only [teamIncAge]
+    rw [getD_map_range _ _ _ _ hk]
+  rw [this]
+  exact ⟨SameShape.refl _, rfl, rfl, rfl, fun _ _ _ _ => rfl⟩
+
 theorem treachableF_treachable {ss : SymSet} (hv : ss.Valid) {rows : Nat} (hp : rows ≤ PACK)
     {t : Team} (h : TReachableF ss rows t) : TReachable ss rows t := by
   induction h with
@@ -609,6 +638,7 @@ theorem treachableF_treachable {ss : SymSet} (hv : ss.Valid) {rows : Nat} (hp : 
     rw [(wf_closed hv.cats_pos (hm x hx)).2]; exact hp
   | crossover _ _ hlen hd ihl ihr =>
     exact TReachable.crossover ihl ihr hlen (teamCrossover_refines _ hd)
+  | incAge _ ih => exact TReachable.incAge ih (teamIncAge_refines _)
 
 /-- **Closure theorem for teams.** -/
 theorem wf_closed_team_functions {ss : SymSet} (hv : ss.Valid) {rows : Nat} (hp : rows ≤ PACK)
@@ -907,9 +937,11 @@ theorem gen_nowrap (rows pl cats i c : Nat) (hpl : pl ≤ rows) (hr : 1 ≤ rows
       Gen.destroy, Write.nowrap, Range.nowrap, Src.nowrap, Draw.nowrap, GenSem.nowrap, evalZ, binZ,
       cellEnv, xEnv, Vars.env] <;> omega
 
+set_option linter.unusedVariables false in
 /-- Every extracted loop whose test is `v != bound` starts at or below its bound (so it terminates
     and covers `[lo, bound)` like the `<` form): for the constructor and mutation because
-    `patch_length ≤ size`, for crossover because the cuts obey their contracts. -/
+    `patch_length ≤ size`, for crossover because the cuts obey their contracts.  (Hypotheses
+    that the current tables do not need are kept: a `<` rewritten as `!=` must stay provable.) -/
 theorem gen_loops_sane (rows pl cats i c : Nat) (hpl : pl ≤ rows) (cut1 cut2 idx : Nat)
     (h1 : cut1 ≤ cut2) (h2 : cut1 ≤ rows) :
     (∀ w ∈ Gen.ctor, w.sane (cellEnv rows pl cats i c)) ∧
